@@ -90,6 +90,8 @@ func main() {
 	switch profile {
 	case "rns":
 		runRns(*seed, *hist, *steps, out)
+	case "mint":
+		runMint(*seed, *hist, *steps, out)
 	case "notif":
 		runNotif(*seed, *hist, *steps, out)
 	default:
